@@ -29,7 +29,7 @@ def run(ctx):
     ctx.do(H.rule_odd1)
     ctx.do(DG.rule_hd1)
     ctx.do(DG.rule_hd1_attr)
-    ctx.do(D.rule_lk1, [HYP])
+    ctx.do(D.rule_lk1, [HYP], scope=ctx.scope(ENTRIES))
     ctx.do(CA.rule_c2, "ProjectiveObject", scope=ctx.scope(ENTRIES))
     ctx.do(SH.rule_sh5, only={"TangentVector.normalized", "TangentVector.angle", "TangentVector.point_along", "TangentVector.origin_to", "TangentVector.isometry_to", "Point.origin_to", "Point.unit_tangent_towards"})
     ctx.do(u1, ENTRIES, min_functions=15)
